@@ -49,6 +49,10 @@ type c15Pkt struct {
 	Len   int    `json:"n"`  // payload length aimed at (packet id + data), Kind 0
 	Fill  int    `json:"f"`
 	Seed  uint64 `json:"s"`
+	// Trail: known pass-through types only: this many bytes follow the fields Gate's
+	// packet type reads (a modded peer or a newer protocol revision sends such
+	// packets); the relay must still hand the whole payload on.
+	Trail int `json:"t,omitempty"`
 }
 
 type c15Case struct {
@@ -127,6 +131,17 @@ func c15Fill(n, fill int, seed uint64) []byte {
 // c15Payload expands a packet spec into the payload (id + data) to relay.
 // Everything here is written with the reference primitives only.
 func c15Payload(k c15Pkt, dir proto.Direction, pr proto.Protocol, unreg []int, stored bool) []byte {
+	out := c15PayloadBase(k, dir, pr, unreg, stored)
+	// (not for the clientbound KeepAlive: the fake client echoes it, and the reply is
+	// a packet the proxy intercepts and rebuilds, which is C18's subject)
+	if k.Trail > 0 && k.Kind != c15KindUnknown && !(k.Kind == c15KindKnownA && dir == proto.ClientBound) {
+		tail := c15Fill(k.Trail, k.Fill, k.Seed^0x7a11)
+		out = append(append([]byte(nil), out...), tail...)
+	}
+	return out
+}
+
+func c15PayloadBase(k c15Pkt, dir proto.Direction, pr proto.Protocol, unreg []int, stored bool) []byte {
 	ids := c15MakeIDs(pr)
 	switch {
 	case k.Kind == c15KindKnownA && dir == proto.ClientBound && pr.GreaterEqual(version.Minecraft_1_12_2):
@@ -226,6 +241,9 @@ func c15GenPkts(t *rapid.T, label string, dir proto.Direction, pr proto.Protocol
 			k.Kind = c15KindBundle
 		default:
 			k.Kind = c15KindUnknown
+		}
+		if k.Kind != c15KindUnknown && rapid.IntRange(0, 2).Draw(t, "trailing") == 0 {
+			k.Trail = rapid.SampledFrom([]int{1, 2, 5, 300, 5000}).Draw(t, "trail")
 		}
 		k.IDIdx = rapid.IntRange(0, 200).Draw(t, "id")
 		k.Fill = rapid.IntRange(0, 2).Draw(t, "fill")
@@ -542,6 +560,6 @@ func c15RunOn(rig *c15Rig, c c15Case, pr proto.Protocol, unregC2S, unregS2C []in
 
 func TestVerif_C15(t *testing.T) {
 	verifkit.Check(t, "C15", "relay",
-		"one session per case through the real Proxy.HandleConn: protocol from {1.8,1.12.2,1.16.5,1.20.1,1.20.2..26.2}, independent client/backend compression thresholds and zlib levels, the client connection AES/CFB8-encrypted in a third of the cases (as for an online-mode player), chunked/coalesced writes, 1-70 packets per direction (unregistered ids, KeepAlive/BossBar/BundleDelimiter/ClientSettings pass-through; payload sizes 0..2^21-2 boundary-biased around both thresholds); non-trivial: >=10 packets in each direction, compression on at least one side and a payload at or above every enabled threshold",
+		"one session per case through the real Proxy.HandleConn: protocol from {1.8,1.12.2,1.16.5,1.20.1,1.20.2..26.2}, independent client/backend compression thresholds and zlib levels, the client connection AES/CFB8-encrypted in a third of the cases (as for an online-mode player), chunked/coalesced writes, 1-70 packets per direction (unregistered ids, KeepAlive/BossBar/BundleDelimiter/ClientSettings pass-through, a third of them with 1..5000 bytes after the fields Gate's packet type reads; payload sizes 0..2^21-2 boundary-biased around both thresholds); non-trivial: >=10 packets in each direction, compression on at least one side and a payload at or above every enabled threshold",
 		c15Gen, c15Run)
 }
